@@ -136,6 +136,34 @@ def child_case(st, case):
                 if units_of(ffi, p, size) != units + [0]:
                     rep.bad('stored-units', '%s[] from %r stores %r' % (T, s, units_of(ffi, p, size)),
                             detail)
+                # the same through an allocator that hands out dirty memory: the
+                # terminator must be written, not inherited from zeroed memory
+                keep = []
+
+                def dirty_alloc(nbytes):
+                    m = ffi.new('char[]', nbytes + 8)
+                    ffi.buffer(m)[:] = b'\xaa' * (nbytes + 8)
+                    keep.append(m)
+                    return m
+                alloc = ffi.new_allocator(alloc=dirty_alloc, free=None,
+                                          should_clear_after_alloc=False)
+                pa = alloc(T + '[]', s)
+                rep.stat('roundtrip_dirty_allocator')
+                if len(pa) != L + 1 or units_of(ffi, pa, size) != units + [0] or \
+                        ffi.string(pa) != s:
+                    rep.bad('roundtrip-dirty-allocator', "allocator('%s[]', %r) on non-zeroed "
+                            'memory stores %r, string() = %r' %
+                            (T, s, units_of(ffi, pa, size), ffi.string(pa, L + 4)), detail)
+                # assignment through a pointer to an open-ended array over old contents
+                mem = ffi.new('%s[%d]' % (T, L + 3))
+                oldu = [rnd.randrange(1, 100) for _ in range(L + 3)]
+                fill(ffi, mem, oldu, size)
+                pp = ffi.cast(T + '(*)[]', mem)
+                pp[0] = s
+                rep.stat('assign_open_array')
+                if units_of(ffi, mem, size) != units + [0] + oldu[L + 1:]:
+                    rep.bad('assign-terminator:open-array', '%s(*)[] <- %r over %r leaves %r' %
+                            (T, s, oldu, units_of(ffi, mem, size)), detail)
                 # fixed size exactly L: no terminator, string() stops at the array end
                 if L:
                     q = ffi.new('%s[%d]' % (T, L), s)
